@@ -106,6 +106,40 @@ T.update({
               caught_by={"C19": "C19/*/executions/* (worker-stall and slow-hand-over faults added because of this change; they found the same race in the unchanged code through the blocking-invocations path: fix 0265987)"}, missed_by={"C19 (before the stall faults)": "virtual time did not pass inside a worker's hand-over, so the window was never held open"}),
 })
 
+
+T.update({
+ "C01b": dict(breaks=["C01", "C02"], summary="SQLiteOrchestrator._atomic_status_transition becomes optimistic: validate against a record read without the write lock, then UPDATE ... WHERE status = <validated status> (compare-and-swap on the status only): an ABA hole - the former owner's stale request is accepted after recovery and a new claim brought the status back to the same value.",
+              needs="three foreign transitions (PENDING_RECOVERY, REROUTED, PENDING by another runner) inside one runner's read-to-write window.",
+              caught_by={"C01": "C01/conc/sqlite/illegal-step/*"}, missed_by={}),
+ "C04b": dict(breaks=["C04"], summary="SQLite heartbeat upsert gets a WHERE clause meant to stop a parent's report from downgrading eligibility; a SQLite upsert WHERE guards the whole DO UPDATE, so the last_heartbeat refresh of a parent-reported child is dropped too and its RUNNING work is listed for recovery.",
+              needs="a runner that heart-beated with can_run_atomic_service=True and is afterwards only kept alive by parent reports (False) for longer than the dead-after time.",
+              caught_by={"C04": "C04/hist/*/running-scan/*, status-after-*"}, missed_by={}),
+ "C07b": dict(breaks=["C07"], summary="route_call looks for an existing invocation in every available status (REGISTERED, REROUTED, RETRY) instead of REGISTERED only: a submission is collapsed onto (or rejected because of) an invocation that already left REGISTERED and was re-queued.",
+              needs="an invocation of the same key in RETRY or REROUTED at the time of the new submission.",
+              caught_by={"C07": "C07/*/duplicate-created, different-args-not-rejected (the 'move' operation now walks PENDING / RUNNING / KILLED / RETRY / REROUTED / FAILED along legal edges; before it went REGISTERED -> PENDING -> RUNNING -> SUCCESS only)"}, missed_by={"C07 (before)": "no invocation ever was in RETRY or REROUTED"}),
+ "C11b": dict(breaks=["C11"], summary="_reclaim_available_slots rebuilds self.threads from the non-waiting threads only ('single pass'): _on_stop never sees a parent that waits for a sub-task; it stays RUNNING under the stopped runner.",
+              needs="a stop while a parent thread is waiting, after at least one further loop iteration.",
+              caught_by={"C11": "C11/*/left-owned/RUNNING/kind=tree"}, missed_by={}),
+ "C12b": dict(breaks=["C12"], summary="calculate_time_slot stretches a runner's window to the duration of its last recorded service execution (clamped to the slot): windows eat into the margin.",
+              needs="execution history (record_atomic_service_execution) with a duration longer than slot - margin, two or more runners.",
+              caught_by={"C12": "C12/*/margin-not-kept, differs-from-model/extra (half of the runs now record execution histories of various lengths; before, no history existed)"}, missed_by={"C12 (before)": "active-runner lists never carried execution history"}),
+ "C14b": dict(breaks=["C14"], summary="MultiThreadRunner._cleanup_dead_processes returns early when no worker is alive (guard on the wrong set): a pool that dies as a whole is never pruned or replaced.",
+              needs="every tracked worker dead between two loop iterations.",
+              caught_by={"C14": "C14/MTR/dead-workers-still-tracked, pool-below-capacity"}, missed_by={}),
+ "C15b": dict(breaks=["C15"], summary="compute_args_id no longer JSON-quotes the serialised value: the byte stream is not self-delimiting; {'a':'1','b':'2'} collides with {'a':'1;\"b\"=2'}.",
+              needs="a value containing ;\"<next key>\"= (reachable through reference-prefixed strings that are passed through verbatim).",
+              caught_by={"C15": "C15/*/identity-encoding (collision candidates for the encodings that quote only keys / only values / nothing were added)"}, missed_by={"C15 (before)": "the re-splitting candidates did not contain a JSON-quoted key inside a value"}),
+ "C16b": dict(breaks=["C16", "C06"], summary="MemOrchestrator.clean_up_invocation deletes an argument-index bucket when one id is left after the discard (off by one): the last live sibling of a purged invocation disappears from argument queries and from concurrency control.",
+              needs="auto_purge of a final invocation whose argument value is shared by exactly one other live invocation.",
+              caught_by={"C16": "C16/differs/get_existing_invocations/value"}, missed_by={}),
+ "C17b": dict(breaks=["C17"], summary="sanitize_table_prefix uses plain lower-case identifiers verbatim (no hash): an app whose id equals another app's storage prefix '<sanitised>_<hash>' shares all its tables.",
+              needs="one id that needs sanitising plus a second id exactly equal to the first one's bare prefix.",
+              caught_by={"C17": "C17/sqlite/foreign-state-changed/* (the look-alike generator now also produces the bare prefix and its lower-case form; before, only component-level prefixes)"}, missed_by={"C17 (before)": "look-alike ids always contained a '__<component>' part"}),
+ "C20b": dict(breaks=["C20"], summary="GET /broker/queue skips an id it already popped ('list it once') and never routes the skipped copy back: a queue holding the same id twice shrinks.",
+              needs="the same invocation id queued more than once within the first `limit` messages.",
+              caught_by={"C20": "C20/*/queue-lost/GET /broker/queue (states with duplicate queue entries added)"}, missed_by={"C20 (before)": "no state had duplicate queue entries"}),
+})
+
 def main():
     suite = {}
     p = os.path.join(V, "seeded", "suite_results.json")
